@@ -574,6 +574,9 @@ fn preludes() -> Vec<Option<Op>> {
         Some(at(Op::PushLit("a"), Op::PushLit("b"))),
         Some(at(Op::PushLit("é"), at(Op::PushLit(""), Op::PushLit("ab")))),
         Some(at(Op::Push(Box::new(Op::Skip(1))), Op::Rule(2, Box::new(Op::Opt(Box::new(Op::Str("b"))))))),
+        // stacks whose entries are all empty (they match at any position, the end of input included)
+        Some(Op::PushLit("")),
+        Some(at(Op::PushLit(""), Op::Push(Box::new(Op::Opt(Box::new(Op::Str("zzz"))))))),
     ]
 }
 
@@ -798,6 +801,31 @@ fn explore(cfg: &Cfg) -> (Stats, u64, u64) {
                             let body = at(at(inner(Op::Tag("t")), ab.clone()), tail.clone());
                             work.push(("tag-scopes".into(), at(first.clone(), Op::Opt(Box::new(outer(body.clone()))))));
                             work.push(("tag-scopes".into(), at(first, outer(body))));
+                        }
+                    }
+                }
+            }
+        }
+    }
+    // stack changes that fail inside a look-ahead and are absorbed there, then a reader of the stack
+    // still inside the same look-ahead
+    {
+        let at = |a: Op, b: Op| Op::AndThen(Box::new(a), Box::new(b));
+        let mods = [Op::PushLit("b"), Op::Drop, Op::Pop, at(Op::Drop, Op::PushLit("b")), Op::Push(Box::new(Op::Skip(1)))];
+        let readers = [Op::Peek, Op::MatchPeek, Op::Drop, Op::MatchPop, Op::PeekSlice(0, None, true), Op::PeekSlice(-1, None, false), at(Op::Drop, Op::Drop)];
+        for pol in [true, false] {
+            for m in &mods {
+                for fail in [Op::Str("zzz"), Op::Eoi, Op::Soi] {
+                    let body = at(m.clone(), fail);
+                    for wrapped in [Op::Restore(Box::new(body.clone())), Op::Seq(Box::new(body.clone())), body.clone(), Op::Look(true, Box::new(body.clone()))] {
+                        for absorbed in [Op::Opt(Box::new(wrapped.clone())), Op::OrElse(Box::new(wrapped.clone()), Box::new(Op::Str(""))), Op::Rep(Box::new(wrapped.clone()))] {
+                            for r in &readers {
+                                let inner = at(absorbed.clone(), r.clone());
+                                for pl in pre.iter().take(4) {
+                                    work.push(("lookahead-stack".into(), with_prelude(pl, &at(Op::Look(pol, Box::new(inner.clone())), Op::Peek))));
+                                    work.push(("lookahead-stack".into(), with_prelude(pl, &Op::Opt(Box::new(at(Op::Look(pol, Box::new(inner.clone())), Op::MatchPeek))))));
+                                }
+                            }
                         }
                     }
                 }
